@@ -397,6 +397,54 @@ theorem createNested_syn (E : Env) (c : VC) (hd : PyDomVC c = true) (X Y Z : Nat
       simp [VC.allowsPlain, VC.flatten]
     exact ⟨tx, hcn, Or.inr ⟨hnonempty tx syn hp, syn, hp, by rw [hal]; exact he, hpy⟩⟩
 
+/-- the text is empty or parses to a tree in C06's proved domain on `E`: every item has a value that the
+reference shares (`agree`) and builds a coherent leaf (`coh`) -/
+def TextAgree (E : Env) (txt : String) : Prop :=
+  txt.isEmpty = true ∨ ∃ syn, parseText txt = .ok syn ∧ syn.agree E ∧ syn.coh = true
+
+/-- `parse_marker` of a text in C06's domain, against poetry's own evaluation: the compaction agreement is used
+as proved (`compactSub_agree`), only the leaf specification remains -/
+theorem parseMarker_sem_agree (E : Env) (S : LeafSpec (leafEval E) (CompLeaf E)) (txt : String) (b : Bool) (m : M)
+    (ha : TextAgree E txt) (hr : refEval E txt = some b) (hm : parseMarker txt = .ok m) :
+    M.Good (CompLeaf E) m ∧ M.sem (leafEval E) m = b := by
+  unfold refEval at hr
+  rcases ha with he | ⟨syn, hp, hag, hco⟩
+  · simp only [he, if_true, Option.some.injEq] at hr
+    have : txt = "" := by simpa [String.isEmpty_iff] using he
+    subst this
+    simp [parseMarker] at hm
+    subst hm; subst hr; simp
+  · have he' : txt.isEmpty = false := by
+      cases h : txt.isEmpty with
+      | false => rfl
+      | true =>
+        have : txt = "" := by simpa [String.isEmpty_iff] using h
+        rw [this, parseText_empty] at hp; cases hp
+    simp only [he', Bool.false_eq_true, if_false, hp] at hr
+    have h1 : (txt == "<empty>") = false := by
+      cases h : txt == "<empty>" with
+      | false => rfl
+      | true =>
+        have : txt = "<empty>" := by simpa using h
+        subst this
+        have : parseText "<empty>" = .error .syntax := rfl
+        rw [this] at hp; cases hp
+    have h2 : (txt == "*") = false := by
+      cases h : txt == "*" with
+      | false => rfl
+      | true =>
+        have : txt = "*" := by simpa using h
+        subst this
+        have : parseText "*" = .error .syntax := rfl
+        rw [this] at hp; cases hp
+    simp only [parseMarker, h1, he', h2, Bool.false_eq_true, if_false, Bool.or_false, hp, bind, Except.bind] at hm
+    split at hm
+    · cases hm
+    · rename_i subs hs
+      have hca := compactSub_agree E S syn subs b hs hag hco hr
+      have := unionF_sound S hca.1 hm
+      exact ⟨this.1, by rw [this.2, hca.2]⟩
+
 /-- `create_nested_marker` then `parse_marker`, for an arbitrary leaf truth and invariant, relative to the generic
 compaction agreement (the form C02 composes with its other marker texts) -/
 theorem createNested_poetry_of_agree {E : Env} {ev : Leaf → Bool} {G : Leaf → Prop} (S : LeafSpec ev G)
